@@ -487,14 +487,9 @@ theorem retry_step (st : St ρ) ts outs bb (h : st.scopes ≠ []) :
 theorem processNodes_step (st : St ρ) ks (h : st.scopes ≠ []) :
     Inv st (Ctl.processNodes ev (fuel + 1) st ks).1 := by
   unfold Ctl.processNodes
-  split
-  · dsimp only
-    split
-    · exact inv_of_fields _ _ h rfl rfl rfl rfl
-    · exact Inv.refl st h
-  · apply inv_seq _ _ (ih.retry st _ _ _ h)
-    intro h1 r
-    exact Inv.refl _ h1
+  apply inv_seq _ _ (ih.retry st _ _ _ h)
+  intro h1 r
+  exact Inv.refl _ h1
 
 end step
 
